@@ -176,7 +176,7 @@ def fmt_word(w):
     return " ".join(s if isinstance(s, str) else ":".join(str(x) for x in s) for s in w)
 
 
-def words_of(body, call_sym, edge_sym=None, stmt_sym=None, start=0, stops=(), keep_end=True, succ=None):
+def words_of(body, call_sym, edge_sym=None, stmt_sym=None, start=0, stops=(), keep_end=True, succ=None, drop_suspend=True):
     """Projected word set of `body`.
     call_sym(call, origins) -> symbol | None        for call terminators
     edge_sym(bb, succ, subject_term, labels, origins) -> symbol | None    for switch edges
@@ -206,17 +206,23 @@ def words_of(body, call_sym, edge_sym=None, stmt_sym=None, start=0, stops=(), ke
         return out
 
     def sym_edge(a, b):
-        if edge_sym is None:
-            return []
         if (a, b) in cache_e:
             return cache_e[(a, b)]
         out = []
         si = switch_info(body, a, o)
         if si is not None:
             subj, labels = si
-            x = edge_sym(a, b, subj, labels.get(b, set()), o)
-            if x is not None:
-                out.append(x)
+            labs = labels.get(b, set())
+            if not labs and subj[0] == "discr":
+                # `otherwise` edge of a match that already names every variant: infeasible
+                cache_e[(a, b)] = None
+                return None
+            if edge_sym is not None:
+                x = edge_sym(a, b, subj, labs, o)
+                if isinstance(x, list):
+                    out.extend(x)
+                elif x is not None:
+                    out.append(x)
         cache_e[(a, b)] = out
         return out
 
@@ -228,6 +234,8 @@ def words_of(body, call_sym, edge_sym=None, stmt_sym=None, start=0, stops=(), ke
     for w in ws:
         end = w[-1]
         core = w[:-1]
+        if drop_suspend and end[1] == "suspend":
+            continue        # prefix of a path: the future is suspended (or dropped) at an await
         if keep_end:
             res.add(core + (f"<{end[1]}>",))
         else:
@@ -242,11 +250,11 @@ def check_words(ob, body, got, allowed, key):
     ob.count(len(got_s))
     for w in sorted(got_s - allowed_s):
         ob.fail("refuted", f"{key}/unexpected-path/{w.replace(' ', '_')}",
-                f"{body.path}: path with projected events `{w}` is not one of the allowed behaviours {sorted(allowed_s)}",
+                f"{body.path}: path with projected events `{w}` is not one of the {len(allowed_s)} allowed behaviours",
                 construct=body.path, where=body.loc(), path=w)
     for w in sorted(allowed_s - got_s):
         ob.fail("refuted", f"{key}/missing-path/{w.replace(' ', '_')}",
-                f"{body.path}: required behaviour `{w}` has no corresponding path (got {sorted(got_s)})",
+                f"{body.path}: required behaviour `{w}` has no corresponding path",
                 construct=body.path, where=body.loc(), path=w)
     if got_s == allowed_s:
         ob.matched += len(got_s)
@@ -335,3 +343,65 @@ def mentions_field(t, name):
 def root_call(t, extra_identity=()):
     t = strip_identity(t, extra_identity)
     return t if t[0] == "call" else None
+
+
+# ---------------------------------------------------------------------------
+# await / comparison recognition
+
+
+def await_target(call):
+    """For the `Future::poll` call of an `.await` desugaring: what is awaited.
+    Returns the async fn path (coroutine body minus ::{closure#0}), the impl type, or None."""
+    if not name_matches(call.fn, "future::future::Future::poll"):
+        return None
+    if not (call.exp and "await" in call.exp):
+        return None
+    if call.res:
+        r = call.res
+        if r.endswith("::{closure#0}"):
+            return r[: -len("::{closure#0}")]
+        return r
+    return "type:" + (call.self_ty or "?")
+
+
+def normalize_cmp(subj):
+    """Strip `Not`s off a boolean subject; return (negated, op, a, b) for a comparison or None.
+    op in lt/le/gt/ge/eq/ne."""
+    neg = False
+    s = subj
+    while True:
+        if s[0] == "unop" and s[1] == "Not":
+            neg = not neg
+            s = s[2]
+            continue
+        if s[0] in ("ref", "deref", "cast"):
+            s = s[1]
+            continue
+        break
+    if s[0] == "binop" and s[1] in ("Lt", "Le", "Gt", "Ge", "Eq", "Ne"):
+        return neg, s[1].lower(), s[2], s[3]
+    if s[0] == "call" and name_matches(s[1], ("cmp::PartialOrd::lt", "cmp::PartialOrd::le", "cmp::PartialOrd::gt", "cmp::PartialOrd::ge",
+                                              "cmp::PartialEq::eq", "cmp::PartialEq::ne")):
+        return neg, s[1].split("::")[-1], s[2][0], s[2][1]
+    return None
+
+
+def cmp_truth(op, a_is_x, labels, neg):
+    """Truth value of the canonical predicate `x >= y` on an edge, or None if the comparison is not
+    equivalent to it.  a_is_x: the first operand is x (else it is y)."""
+    if labels == {"true"}:
+        val = True
+    elif labels == {"false"}:
+        val = False
+    else:
+        return None
+    if neg:
+        val = not val
+    # express as x ? y
+    if not a_is_x:
+        op = {"lt": "gt", "le": "ge", "gt": "lt", "ge": "le", "eq": "eq", "ne": "ne"}[op]
+    if op == "ge":
+        return val
+    if op == "lt":
+        return not val
+    return None
